@@ -44,7 +44,7 @@ func travWorker(c *evid.Ctx, prop string) {
 		"C04": {StopPct: 5, LatePct: 10, TimeoutPct: 10},
 	}[prop]
 	r := c.R.Fork("controlled")
-	n := c.Scale(30000, 600000)
+	n := c.Scale(30000, 2000000)
 	for i := 0; i < n && c.NumViolations() < 20; i++ {
 		class := gen.Pick(r, mix)
 		net := trav.GenNet(r, class)
@@ -111,9 +111,9 @@ func travWorker(c *evid.Ctx, prop string) {
 
 	// Free-running stress (C03 mainly; a small dose for the others).
 	fr := c.R.Fork("free")
-	nf := c.Scale(4000, 100000)
+	nf := c.Scale(4000, 300000)
 	if prop != "C03" {
-		nf = c.Scale(800, 16000)
+		nf = c.Scale(800, 48000)
 	}
 	if os.Getenv("VERIF_NO_YIELD") == "" {
 		trav.InstallYield(c.Seed ^ uint64(c.Batch))
